@@ -132,6 +132,7 @@ class RecordHistory(Engine):
             "lookup": rng.choice([1, 3, 6]),
             "readd": rng.choice([0, 0.5, 1.5]),
             "roundtrip": rng.choice([0, 0, 0.4, 1]),
+            "add_region": rng.choice([0, 0, 0.5, 1.5]),
         }
         table = sorted(weights.items())
         origin_bias = rng.choice([0.0, 0.2, 0.5]) if circular else 0.0
@@ -278,6 +279,8 @@ class RecordHistory(Engine):
             elif kind == "lookup":
                 parts = area_parts(1, rng.choice([10, 40, 150]))
                 ops.append({"op": kind, "loc": parts, "overlap": rng.random() < 0.5})
+            elif kind == "add_region":
+                ops.append({"op": kind, "pick": rng.randrange(1 << 20)})
             elif kind == "readd":
                 # only subregions: a protocluster object keeps its defining genes from its earlier life, which
                 # says nothing about the record it is added to again (the pipeline always adds fresh objects)
@@ -340,7 +343,7 @@ EXPECTED_PROBES = [
     "origin_area_overlaps_2", "region_covers_whole_record", "clear_create_cycle_2", "region_created",
     "implicit_region_recreation", "lookup_compound", "lookup_overlap_hits_origin_gene", "multi_region",
     "region_with_2_members", "op_rejected", "gene_renamed", "definition_cds", "multi_exon_gene",
-    "area_readded_after_clear", "identical_subregions", "record_read_back",
+    "area_readded_after_clear", "identical_subregions", "record_read_back", "region_added_directly", "direct_region_rejected",
 ]
 
 
@@ -356,6 +359,8 @@ def _op_str(op: Dict[str, Any]) -> str:
         return f"lookup {op['loc']} overlap={op['overlap']}"
     if kind == "readd":
         return f"readd {op['id']}"
+    if kind == "add_region":
+        return f"add_region (subregions picked by {op['pick']})"
     return kind
 
 
@@ -529,6 +534,38 @@ class _Execution:
                 self.record = new
                 res.probe("record_read_back")
                 return "ok"     # regions are rebuilt as they were, not created anew
+            if kind == "add_region":
+                pool = [spec["obj"] for key, spec in sorted(self.subs.items())]
+                if not pool:
+                    return "skipped"
+                picker = __import__("random").Random(f"region:{op['pick']}")
+                chosen = picker.sample(pool, min(len(pool), picker.choice([1, 1, 2])))
+                from antismash.common.secmet.features import Region
+                previous_parents = [(sub, sub.parent) for sub in chosen]
+                region = Region(subregions=chosen)
+                new_mask = mask(loc_parts(region.location))
+                clash = any(new_mask & mask(loc_parts(r.location)) for r in rec.get_regions())
+                before = list(rec.get_regions())
+                try:
+                    rec.add_region(region)
+                    accepted = True
+                except ValueError:
+                    accepted = False
+                if not accepted:
+                    for sub, parent in previous_parents:     # the rejected region must not stay anybody's parent
+                        sub.parent = parent
+                res.probe("region_added_directly" if accepted else "direct_region_rejected")
+                if clash and accepted:
+                    self.violate("C06-c", f"add_region accepted a region {loc_parts(region.location)} that overlaps an "
+                                 f"existing region ({[loc_parts(r.location) for r in before]})",
+                                 sig="add_region-accepted-overlap")
+                    return "abort"
+                if not clash and not accepted:
+                    self.violate("C06-c", f"add_region refused a region {loc_parts(region.location)} that overlaps no "
+                                 f"existing region ({[loc_parts(r.location) for r in before]})",
+                                 sig="add_region-spurious-refusal")
+                    return "abort"
+                return "ok"
             if kind == "readd":
                 spec = self.removed.pop(op["id"], None)
                 if spec is None:
@@ -654,12 +691,31 @@ class _Execution:
         elif len(op["loc"]) == 1:
             # genes crossing the origin have no single position relative to the query, so the
             # order is asserted among the others only
-            order = [self._names(rec.get_cds_features()).index(n) for n in names
-                     if not self.genes[n]["obj"].crosses_origin()]
-            if order != sorted(order):
-                self.violate("C08-b", f"lookup {op['loc']} result not in location order: {names}",
-                             sig=f"lookup-order:{mode}")
+            plain = [n for n in names if not self.genes[n]["obj"].crosses_origin()]
+            order = [self._names(rec.get_cds_features()).index(n) for n in plain]
+            if order != sorted(order) or not self._in_location_order(plain):
+                self.violate("C08-b", f"lookup {op['loc']} result not in location order: "
+                             f"{[(n, self.genes[n]['parts']) for n in names]}", sig=f"lookup-order:{mode}")
         return f"found:{len(names)}"
+
+    def _in_location_order(self, names: List[str]) -> bool:
+        """ location order by the model: starts never decrease, and genes that start together and have a single
+            part come shortest first (the order of other ties is not asserted) """
+        previous_start = -1
+        previous_simple_end = -1
+        for name in names:
+            parts = self.genes[name]["parts"]
+            start = min(p[0] for p in parts)
+            if start < previous_start:
+                return False
+            if start > previous_start:
+                previous_simple_end = -1
+            if len(parts) == 1:
+                if parts[0][1] < previous_simple_end:
+                    return False
+                previous_simple_end = parts[0][1]
+            previous_start = start
+        return True
 
     def _gene_shape(self, name: str) -> str:
         gene = self.genes[name]
@@ -692,6 +748,13 @@ class _Execution:
 
         for feature in list(cands) + list(regions):
             self.ever_in_record[id(feature)] = feature  # keeps the object alive, so ids stay unique
+        # ---- C08-b: the sorted gene list every lookup relies on
+        if op["op"] in ("add_gene", "roundtrip", "finalise"):
+            plain = [g.get_name() for g in gene_objs if not g.crosses_origin()]
+            if not self._in_location_order(plain):
+                self.violate("C08-b", f"the record's genes are not in location order after {op['op']}: "
+                             f"{[(n, genes[n]['parts']) for n in plain]}", sig="gene-list-order")
+                return
         # ---- C08-a membership
         for kind, areas in (("protocluster", protos), ("candidate", cands), ("subregion", subs), ("region", regions)):
             for area in areas:
